@@ -190,6 +190,26 @@ def norm(t):
     return tuple(norm(x) if isinstance(x, tuple) else x for x in t)
 
 
+def known_array(it):
+    """Elements of the array an iterator term walks over when that array was built on the path (through iter / into_iter /
+    refs / unsizing casts), else None."""
+    x = it
+    for _ in range(8):
+        if not isinstance(x, tuple) or not x:
+            return None
+        if x[0] in ('ref', 'deref', 'cast'):
+            x = x[1]
+        elif x[0] == 'call' and re.search(r'(^|::)(iter|into_iter|as_ref|as_slice|deref|borrow)$', x[1]) and x[2]:
+            x = x[2][0]
+        elif x[0] == 'array':
+            return list(x[1])
+        elif x[0] == 'arrayiter':
+            return list(x[1])
+        else:
+            return None
+    return None
+
+
 def coll_of(it):
     """Collection behind an iterator term."""
     return norm(it)
@@ -497,9 +517,17 @@ class SizeFlow:
                 while isinstance(x, tuple) and x and x[0] in ('ref', 'deref'):
                     x = x[1]
                 if isinstance(x, tuple) and x and x[0] == 'call' and short(x[1]) == 'map' and len(x[2]) == 2:
-                    coll = coll_of(x[2][0])
-                    per = sf.apply_fn(x[2][1], [('item', coll)], tyargs)
-                    val = ('lin', mk_sum(coll, per).key())
+                    arr = known_array(x[2][0])
+                    if arr is not None:
+                        # a table built in this body (`[(&self.a, ID_A), (&self.b, ID_B)].iter().map(f).sum()`): f of each entry
+                        tot_ = Lin()
+                        for el in arr:
+                            tot_ = tot_.add(sf.apply_fn(x[2][1], [('ref', el)], tyargs))
+                        val = ('lin', tot_.key())
+                    else:
+                        coll = coll_of(x[2][0])
+                        per = sf.apply_fn(x[2][1], [('item', coll)], tyargs)
+                        val = ('lin', mk_sum(coll, per).key())
                 else:
                     raise Unsupported('sum() over an iterator that is not map(closure) in %s' % b.path)
             elif trait == 'utils::Encode' and base == 'encoded_size':
@@ -600,7 +628,15 @@ class SizeFlow:
             m = merge_conds(conds, F, self.domains)
             if m is None:
                 continue
-            iterated = tuple(sorted(bi for bi, n in p.visits.items() if n >= 2 and b.blocks[bi]['term']['k'] == 'call' and short(callee_name(b.blocks[bi]['term']) or '') == 'next'))
+            unrolled = set()
+            for nm_, a_, bi_ in p.calls:
+                if short(nm_) == 'next' and a_:
+                    it_ = a_[0]
+                    while isinstance(it_, tuple) and it_ and it_[0] in ('ref', 'deref'):
+                        it_ = it_[1]
+                    if isinstance(it_, tuple) and it_ and it_[0] == 'arrayiter':
+                        unrolled.add(bi_[0] if isinstance(bi_, tuple) else bi_)
+            iterated = tuple(sorted(bi for bi, n in p.visits.items() if n >= 2 and bi not in unrolled and b.blocks[bi]['term']['k'] == 'call' and short(callee_name(b.blocks[bi]['term']) or '') == 'next'))
             if emit:
                 # unsigned subtractions on this path: value of a - b, to be shown non-negative in every world
                 for bi in p.blocks:
